@@ -91,6 +91,13 @@ def gen_definition(rng, *, rational=True, max_states=5, max_controls=3, max_cal=
             sm[s] = add(var(s), mul(var("dt"), rnd_expr(rng, allv, 2, rational, pool)))
         else:
             sm[s] = rnd_expr(rng, allv, 3, rational, pool)
+    bilinear = nu >= 1 and ns >= 2 and not singular and not force_fold and rng.random() < 0.15
+    if bilinear:
+        # bilinear dynamics: the process Jacobian contains no state symbol but depends on the control (and dt), so it
+        # must be re-evaluated when only the control changes between two steps of one filter
+        for s in state:
+            u, o = rng.choice(control), rng.choice(state)
+            sm[s] = add(var(s), mul(var("dt"), mul(num(rng.choice([1, -1, 3]), rng.choice([2, 4])), mul(var(u), var(o)))))
     if not rational and (force_fold or rng.random() < 0.5):
         # an angle-folding style update: a function applied to its own inverse
         s_ = rng.choice(state)
@@ -121,7 +128,36 @@ def gen_definition(rng, *, rational=True, max_states=5, max_controls=3, max_cal=
         "calibration_map": cmap,
         "rational": rational,
     }
+    if bilinear:
+        d["same_dt"] = rng.choice([0.25, 0.125])      # every point of this definition uses one dt, the controls differ
     return d
+
+
+ALL_FNS = ["sin", "cos", "tan", "exp", "sinh", "cosh", "tanh", "sec", "csc", "cot", "sech", "csch", "coth", "atan", "asinh"]
+
+
+def function_coverage_definitions():
+    """fixed definitions that run first: every supported unary function applied to an argument that contains an even
+    power of a symbol evaluated at negative values (printers that rewrite a function may also rewrite the power), with
+    a non-alphabetical declaration order"""
+    out = []
+    for grp in (ALL_FNS[:8], ALL_FNS[8:]):
+        state = [f"w_{f}" for f in grp] + ["m"]
+        sm = {f"w_{f}": fn(f, mul(add(var("u"), var(f"w_{f}")), powi(add(num(1), powi(var("m"), 2)), -1))) for f in reversed(grp)}
+        sm["m"] = add(var("m"), mul(var("dt"), var("c")))
+        out.append({"dt": "dt", "state": state, "control": ["u"], "calibration": ["c"], "state_model": sm,
+                    "sensors": {"gps": {"z": fn(grp[0], powi(var("m"), 2)), "alt": add(var("m"), var(f"w_{grp[1]}"))}},
+                    "process_noise": {"u": 0.25}, "sensor_noise": {"gps": {"z": 0.5, "alt": 1.0}},
+                    "calibration_map": {"c": -0.75}, "rational": False})
+    return out
+
+
+def function_coverage_points(d):
+    pts = []
+    for mval, uval in ((-0.25, 0.5), (-1.5, -0.75), (0.75, 1.25)):
+        st = {s: (mval if s == "m" else 0.3125) for s in d["state"]}
+        pts.append({"dt": 0.125, "state": st, "control": {"u": uval}})
+    return pts
 
 
 def rnd_point(rng):
@@ -131,7 +167,7 @@ def rnd_point(rng):
 
 def rnd_inputs(rng, d):
     # mostly ordinary steps; the zero-length step and a backward step (the managed runtime rewinds) are legitimate too
-    return {"dt": rng.choice([0.125, 0.25, 0.5, 0.0625, 1.0, 0.125, 0.25, 0.5, 0.0, -0.125]),
+    return {"dt": d["same_dt"] if d.get("same_dt") is not None else rng.choice([0.125, 0.25, 0.5, 0.0625, 1.0, 0.125, 0.25, 0.5, 0.0, -0.125]),
             "state": {s: rnd_point(rng) for s in d["state"]},
             "control": {u: rnd_point(rng) for u in d["control"]}}
 
